@@ -174,6 +174,28 @@ type corruption struct {
 
 func reseal(h *model.PHeader, g *bscGen, signer common.Address) { h.Seal(g.chainID, g.byAddr[signer]) }
 
+// the sealer of every block of the last n/2+2 (the whole recent-signer window of the current set, its oldest entry
+// and the first one outside it) offers the next block: after a set change the window is the new set's
+func init() {
+	for k := uint64(2); k <= 12; k++ {
+		k := k
+		c17Corruptions = append(c17Corruptions, corruption{fmt.Sprintf("sealed-by-signer-of-block-minus-%d", k), func(h *model.PHeader, p *model.Parlia, g *bscGen) bool {
+			n := uint64(len(p.Validators))
+			s, ok := p.History[h.Number-k]
+			if k > n/2+2 || !ok || g.byAddr[s] == nil {
+				return false
+			}
+			h.Coinbase = s
+			h.Difficulty = 1
+			if p.Validators[h.Number%n] == s {
+				h.Difficulty = 2
+			}
+			reseal(h, g, s)
+			return true
+		}})
+	}
+}
+
 var c17Corruptions = []corruption{
 	{"parent-hash", func(h *model.PHeader, p *model.Parlia, g *bscGen) bool {
 		h.ParentHash[3] ^= 1
